@@ -28,6 +28,7 @@ type World struct {
 	Prog   *ssa.Program
 	All    []*packages.Package
 	GOOS   string
+	instances map[*ssa.Function][]*ssa.Function
 }
 
 // roles of the product packages, by import-path suffix below the module path.
@@ -178,6 +179,14 @@ func (w *World) Funcs(role string) []*ssa.Function {
 		switch m := m.(type) {
 		case *ssa.Function:
 			if m.Synthetic == "" || m.Name() == "init" {
+				// a generic function is a template: what runs are its instances (the program is built
+				// with InstantiateGenerics), whose bodies carry the concrete types
+				if inst := w.instancesOf(m); len(inst) > 0 {
+					for _, f := range inst {
+						add(f)
+					}
+					continue
+				}
 				add(m)
 			}
 		case *ssa.Type:
@@ -194,6 +203,25 @@ func (w *World) Funcs(role string) []*ssa.Function {
 	}
 	sort.Slice(out, func(i, j int) bool { return out[i].Pos() < out[j].Pos() })
 	return out
+}
+
+// instancesOf: the instantiations of a generic function of the analysed program, ordered by name.
+func (w *World) instancesOf(origin *ssa.Function) []*ssa.Function {
+	if origin.TypeParams().Len() == 0 || len(origin.TypeArgs()) > 0 {
+		return nil
+	}
+	if w.instances == nil {
+		w.instances = map[*ssa.Function][]*ssa.Function{}
+		for f := range ssautil.AllFunctions(w.Prog) {
+			if o := f.Origin(); o != nil && o != f && f.Blocks != nil && f.Parent() == nil {
+				w.instances[o] = append(w.instances[o], f)
+			}
+		}
+		for _, l := range w.instances {
+			sort.Slice(l, func(i, j int) bool { return l[i].Name() < l[j].Name() })
+		}
+	}
+	return w.instances[origin]
 }
 
 // FuncName gives a stable human name: Recv.Method or func, closures as outer$n.
